@@ -18,7 +18,7 @@ Definition name_fine (e : env) (c : nctx) (q : qname) : Prop :=
 Definition attr_fine (e : env) (c : nctx) (a : qname * option str) : Prop :=
   exists lex v, n_qname c (fst a) = Some lex /\ snd a = Some v
                 /\ attr_name e lex = Some (fst a) /\ forallb is_xml_char v = true.
-Definition text_fine (t : str) : Prop := t <> [] /\ forallb is_xml_char t = true /\ mem 13 t = false.
+Definition text_fine (t : str) : Prop := t <> [] /\ forallb is_xml_char t = true.
 
 Fixpoint sn_wf (e : env) (c : nctx) (n : snode) : Prop :=
   match n with
@@ -58,7 +58,7 @@ Definition node_wf (u0 : option str) (q : qname) (ats : list (qname * wvalue)) (
   && forallb (fun a => attr_name_ok (fst a) && value_names_ok (attr_conv a) && value_texts_ok (attr_conv a)
                        && negb (value_none (snd a)) && u0_differs u0 (fst (fst a))) ats.
 Definition data_wf (v : wvalue) : bool :=
-  value_names_ok v && value_texts_ok v && forallb (fun s => negb (mem 13 s)) (value_texts v).
+  value_names_ok v && value_texts_ok v.
 Definition wf_guard (u0 : option str) : item -> bool := all_nodes (node_wf u0) data_wf.
 
 (* ------------------------------------------------------------------ characters of rendered values *)
@@ -565,16 +565,14 @@ Lemma txt_of_fine u0 m v :
   let '(enc, m') := encode_data m v in
   minv u0 m' /\ ext m m' /\ (forall e c, all_wf e c (txt_of enc)).
 Proof.
-  intros Hinv Hd. unfold data_wf in Hd. apply andb_true_iff in Hd as [Hd Hcr]. apply andb_true_iff in Hd as [Hn Ht].
+  intros Hinv Hd. unfold data_wf in Hd. apply andb_true_iff in Hd as [Hn Ht].
   pose proof (encode_data_ok u0 m v Hinv Hn) as H.
   destruct (encode_data m v) as [enc m']. destruct H as [Hi [E R]].
   split; [exact Hi|split; [exact E|]]. intros e c.
   destruct enc as [[|x t]|]; cbn [txt_of all_wf]; try exact I; try tauto.
   split; [|exact I]. cbn [sn_wf]. destruct R as [_ [ts [Hr Hj]]].
-  unfold text_fine. split; [discriminate|]. rewrite Hj. split.
-  - apply (encoded_chars m' ts _ (minv_legal _ _ Hi) Hn Hr). apply value_texts_forall. exact Ht.
-  - apply (encoded_no_cr m' ts _ (minv_legal _ _ Hi) Hn Hr). intros s Hs.
-    pose proof (value_texts_forall (fun s => negb (mem 13 s)) v Hcr s Hs) as H. apply negb_true_iff in H. exact H.
+  unfold text_fine. split; [discriminate|]. rewrite Hj.
+  apply (encoded_chars m' ts _ (minv_legal _ _ Hi) Hn Hr). apply value_texts_forall. exact Ht.
 Qed.
 
 Definition kid_wf (u0 : option str) (W : nsmap -> item -> list snode) (k : item) : Prop :=
